@@ -76,8 +76,11 @@ func (c *intervalChecker) add(r sendRec) *vf.Verdict {
 		}
 		sum += ri.size
 		c.checked++
-		if v := decideInterval(sum, bw, mds, r.t-ri.t, i, j); v != nil {
-			return v
+		// fast pre-check with a small margin below the exact decision; decideInterval decides
+		if float64(sum) > burstOf(bw, mds)+1.25e-9*bw*float64(r.t-ri.t)+float64(mds) {
+			if v := decideInterval(sum, bw, mds, r.t-ri.t, i, j); v != nil {
+				return v
+			}
 		}
 	}
 	if lo > 0 {
